@@ -102,6 +102,11 @@ func genRedefine(r *rand.Rand) redefCase {
 	if t.HasErr && r.Intn(8) == 0 {
 		t.Fail = true
 	}
+	if !t.Fail && r.Intn(8) == 0 {
+		// a run-once target: the functions derived from it return the
+		// results of its one execution
+		t.Once = true
+	}
 	s.Target = t
 
 	mkConv := func(in []Label, out []Label) FuncSpec {
@@ -326,6 +331,9 @@ func runC08(c *CaseCtx) (res CaseResult) {
 	if c.Idx%25 == 11 {
 		return runC08IfaceTwin(c, r)
 	}
+	if c.Idx%50 == 3 {
+		return runC08SameKey(c, r)
+	}
 	rc := genRedefine(r)
 	s := rc.S
 	res.Key = rc.String()
@@ -514,6 +522,12 @@ func runC08(c *CaseCtx) (res CaseResult) {
 				nt++
 			}
 		}
+		if s.Target.Once && nt == 0 && in.W.Execs(-1) >= 1 {
+			// a run-once target that has already executed: its results are
+			// the memoized ones
+			res.obs("redefined_calls_of_a_memoized_run_once_target", 1)
+			continue
+		}
 		if nt != 1 {
 			res.violate("C08", "target-count", fmt.Sprintf("the original target ran %d times inside the redefined call", nt), d2)
 			continue
@@ -527,7 +541,7 @@ func runC08(c *CaseCtx) (res CaseResult) {
 		// values: every call must yield the original function's results for
 		// ITS values (built functions share their value sets by design and
 		// are excluded; run-once outputs are shared by design)
-		anyBuiltOrOnce := s.Target.InForm == FormBuilt
+		anyBuiltOrOnce := s.Target.InForm == FormBuilt || s.Target.Once
 		for _, cv := range s.Convs {
 			if cv.InForm == FormBuilt || cv.Once {
 				anyBuiltOrOnce = true
